@@ -5,7 +5,9 @@ import (
 	"bytes"
 	"encoding/json"
 	"fmt"
+	"io"
 	"testing"
+	"testing/iotest"
 
 	"github.com/tonkeeper/tongo/boc"
 	"github.com/tonkeeper/tongo/liteclient"
@@ -210,6 +212,29 @@ var account = &core.Check{Name: "c17/account", Quick: 20000, Thorough: 2000000, 
 	}
 	if rd.Len() != len(tail) {
 		return fmt.Errorf("UnmarshalTL consumed %d bytes, want 36", len(tl)+len(tail)-rd.Len())
+	}
+	// the same bytes handed over in pieces, as a network reader does
+	for _, how := range []string{"one byte per Read", "half of the request per Read", "workchain and id in separate Reads"} {
+		var chunked io.Reader
+		switch how[0] {
+		case 'o':
+			chunked = iotest.OneByteReader(bytes.NewReader(tl))
+		case 'h':
+			chunked = iotest.HalfReader(bytes.NewReader(tl))
+		default:
+			chunked = io.MultiReader(bytes.NewReader(tl[:4]), bytes.NewReader(tl[4:]))
+		}
+		var v ton.AccountID
+		if err := v.UnmarshalTL(chunked); err != nil || v != id {
+			return fmt.Errorf("UnmarshalTL(%x) through a reader that delivers %s = %s, %v; want %s", tl, how, v.ToRaw(), err, raw)
+		}
+	}
+	// a truncated account id is an error
+	if cut := c.Intn("tl.cut", 36); true {
+		var v ton.AccountID
+		if err := v.UnmarshalTL(bytes.NewReader(tl[:cut])); err == nil {
+			return fmt.Errorf("UnmarshalTL of the first %d of 36 bytes (%x) returned no error", cut, tl[:cut])
+		}
 	}
 
 	if !fits8 {
